@@ -53,6 +53,7 @@ def zoo_case(draw, entry=None, small=False):
             c["coal"] = draw(st.sampled_from(["constant", "skygrid", "skyride", "exponential", "linear"]))
             c["theta"] = [draw(logu(0.5, 50.0)) for _ in range(4)]
             c["gmrf"] = draw(st.booleans())
+            c["temperature"] = draw(st.sampled_from([None, None, 1e-4, 0.5]))  # the soft skygrid
         if e == "bdsk":
             m = draw(st.integers(1, 3))
             c["bd"] = {"R": [draw(logu(0.5, 3)) for _ in range(m)], "delta": [draw(logu(0.3, 2)) for _ in range(m)], "s": [draw(fl(0.1, 0.8)) for _ in range(m)],
@@ -134,6 +135,8 @@ def build_spec(c):
             coal["growth"] = tt.P("growth", [0.3])
         if m in ("skygrid", "linear"):
             coal["cutoff"] = 7.3
+        if m == "skygrid" and c.get("temperature"):
+            coal["temperature"] = c["temperature"]
         spec.append(coal)
         targets = ["coal"]
         if c["gmrf"] and theta_n >= 2:
@@ -287,7 +290,7 @@ def classes(c):
     if e == "like":
         return "like:%s:%s:%s:%s" % (like["model"]["name"], like["site"]["kind"], like["tree"]["kind"], like["tree"].get("clock", {}).get("kind", "none"))
     if e == "coal":
-        return "coal:%s:%s" % (c["coal"], like["tree"]["kind"])
+        return "coal:%s%s:%s" % (c["coal"], ":soft" if (c["coal"] == "skygrid" and c.get("temperature")) else "", like["tree"]["kind"])
     if e == "bdsk":
         return "bdsk:%s:m%d:%s%s" % (like["tree"]["kind"], len(c["bd"]["R"]), c["bd"]["rho"], ":constant" if c["bd"].get("constant") else "")
     return "prior:%s" % like["tree"]["kind"]
